@@ -642,6 +642,13 @@ Section Prefix.
                 | intros; unfold each_iter_setup; apply map_front_block_Qs; assumption
                 | feq_tac | qs' ]
             end.
+        + (* HLocal *)
+          destruct (starts_with (`"e:") name); [|go2].
+          match goal with
+          | |- context [log_entry (fl t1 a b c) ?x] =>
+              change (log_entry (fl t1 a b c) x) with (fl (log_entry t1 x) a b c)
+          end.
+          go2.
     Qed.
 
     Lemma g_eval_decorator dt : forall t1 t2, feq t1 t2 -> Qs t1 -> ni_deco false dt = true ->
